@@ -13,6 +13,7 @@ from anynet import http
 import vf
 import switch_tables as st
 import switch_cases as sc
+import switch_validation as sv
 
 LEVEL = "proof"
 
@@ -232,6 +233,176 @@ def stateful_walk(ctx, mods, data, versions, cases, results):
     anyio.run(main)
     ctx.extra["stateful_walk_calls"] = n_calls[0]
     ctx.extra["stateful_walk_steps"] = len(steps)
+
+
+# ---------------------------------------------------------------------------------------------
+def validation_sweep(ctx, mods, data, versions, drv, tbl_lines, diffs):
+    """`input validation accepts exactly the well-formed values it names`: for every validated input of every client the values
+    generated by harness/switch_validation.py (mutations of every byte / field the check covers, one at a time and in pairs, and of
+    what it does not cover) on fresh clients, on ONE reused client per class, and on the compiled model."""
+    rng = ctx.rng
+    quick = ctx.tier == "quick"
+    api = dict(data["tables"]["aauthApi"])
+    api3 = [v for v in versions if api.get(v) == 3]
+    api4 = [v for v in versions if api.get(v, 0) >= 4]
+    full_ticket = set(api3) if not quick else ({rng.choice(api3)} if api3 else set())
+    inv_versions = ["init"] + versions
+    if quick:
+        pick = {versions[0], versions[-1]} | {v for v in versions if v in (1810, 1900)} | set(rng.sample(versions, 3))
+        inv_versions = ["init"] + sorted(pick)
+    variants = {c: [x for x in sc.call_variants(c) if x[2] in ("plain", "app", "system")] for c in ("dragons", "sun", "atumn")}
+    cases = []
+    for v in api3:
+        cases += sv.ticket_cases(rng, v, v in full_ticket)
+    for v in api4 + ["init"]:
+        cases += sv.token_cases(rng, v, not quick)
+    for i, v in enumerate(inv_versions):
+        cases += sv.invitation_cases(rng, v, (not quick) or i == 0, sc.DOCUMENTED_LANGUAGES)
+    for v in ["init"] + versions:
+        cases += sv.login_cases(v)
+        cases += sv.device_cases(v, variants)
+
+    # the AES key of the API-3 ticket encryption is recorded on its way through (pass-through wrapper) so that the
+    # ticket that was sent can be compared with the ticket that was given
+    keys = []
+    orig_random = getattr(mods["aauth"], "get_random_bytes", None)
+    if orig_random is not None:
+        def recording(n):
+            k = orig_random(n)
+            keys.append(k); del keys[:-4]
+            return k
+        mods["aauth"].get_random_bytes = recording
+
+    def report(c, why, how, extra=None):
+        fam = {"ticket": "aauth-ticket", "token": "aauth-token", "invitation": "five-invitation", "login": "baas-login", "device": c["client"] + "-device"}[c["carried"]]
+        replay = {"client": c["client"], "version": c["ver"], "call": c["call"], "device_id": c["devid"], "input": c["note"], "expected": c["expect"],
+                  "python": sv.describe(c), "args": [x.hex() if isinstance(x, (bytes, bytearray)) else (x if isinstance(x, (int, str, bool, type(None), list)) else repr(x)) for x in c["args"]]}
+        if extra: replay.update(extra)
+        ctx.violation("validation:%s:%s:%s%s" % (fam, c["ver"], c["tag"], how),
+                      "%s.%s at %s, %s: %s" % (c["client"], c["call"], c["ver"], c["note"], why), json.loads(json.dumps(replay, default=repr)))
+
+    results = []
+
+    async def fresh():
+        for c in cases:
+            try:
+                r = await sc.run_case(mods, c)
+            except Exception as e:
+                r = {"ok": False, "exc": e, "caps": [], "setup_failed": True}
+            results.append(r)
+            why = sv.judge(c, r, keys)
+            ctx.case(key="val/%s/%s/%s/%s" % (c["client"], c["ver"], c["devid"], c["tag"]), nontrivial=True,
+                     tag="val:%s.%s:%s" % (c["client"], c["call"], c["expect"]),
+                     sample={"case": c["tag"], "version": c["ver"], "expect": c["expect"], "real": sc.real_line(r)[:120]} if ctx.evaluations % 2999 == 0 else None)
+            if why: report(c, why, "")
+
+    # ONE object per (client, device id): the same values in another order, versions switched in between; a refusal or an
+    # acceptance must not depend on what the object was asked before
+    async def reused():
+        groups = {}
+        for c, r in zip(cases, results):
+            if r.get("setup_failed"): continue
+            groups.setdefault((c["client"], c["devid"]), {}).setdefault(c["ver"], []).append((c, r))
+        n = 0
+        for (client, devid), byver in groups.items():
+            cl = sc.make_client(mods, client, devid)
+            caps, cur = [], {"call": None}
+            async def cb(host, req, context, caps=caps, cur=cur, client=client):
+                caps.append({"host": host, "data": req.encode()})
+                return sc.good_response(client, cur["call"], req)
+            cl.set_request_callback(cb)
+            order = [v for v in byver if v != "init"]
+            rng.shuffle(order)
+            for v in order:
+                try: cl.set_system_version(v)
+                except Exception: continue      # reported by the set_system_version sweeps
+                todo = list(byver[v])
+                rng.shuffle(todo)
+                if quick and len(todo) > 400: todo = todo[:400]
+                history = []
+                for c, r in todo:
+                    caps.clear(); cur["call"] = c["call"]
+                    try:
+                        await sc.invoke(cl, client, c["call"], c["args"])
+                        got = ("ok", [(x["host"], mask_random(x["data"])) for x in caps])
+                    except Exception as e:
+                        got = ("err", sc.exc_name(e), len(caps))
+                    exp = ("ok", [(x["host"], mask_random(x["data"])) for x in r["caps"]]) if r["ok"] else ("err", sc.exc_name(r["exc"]), len(r["caps"]))
+                    n += 1
+                    if got != exp:
+                        why = sv.judge(c, {"ok": got[0] == "ok", "exc": ValueError() if got[1:2] == ("ValueError",) else Exception(got[1]) if got[0] == "err" else None,
+                                           "caps": [{"data": d, "host": h} for h, d in got[1]] if got[0] == "ok" else [None] * got[2]}, None) \
+                              or "the outcome differs from that of a freshly constructed client"
+                        report(c, why + " — on a client that handled %d other call(s) at this version before" % len(history), ":reused",
+                               {"previous_calls_on_this_object": history[-5:], "reused": repr(got)[:600], "fresh": repr(exp)[:600]})
+                    history.append(c["tag"])
+        ctx.extra["validation_reused_calls"] = n
+
+    import time
+    t0 = time.time()
+    try:
+        anyio.run(fresh)
+        t1 = time.time()
+        anyio.run(reused)
+    finally:
+        if orig_random is not None:
+            mods["aauth"].get_random_bytes = orig_random
+
+    # values that are not version numbers at all: refused, client unchanged (state and next request)
+    async def not_versions():
+        for client in sc.CLIENTS:
+            devid = 0x6265A1B2C3D4E5F6 if client in ("dragons", "sun", "atumn") else None
+            call, args = REP_CALL[client]
+            for base in ["init", versions[0], 1412, 1800]:
+                if base != "init" and base not in versions: continue
+                ref = await sc.run_case(mods, {"client": client, "devid": devid, "ver": base, "cfg": {}, "call": call, "args": args})
+                for bad in sv.NOT_VERSIONS:
+                    if isinstance(bad, (int, float)) and not isinstance(bad, bool) and bad in versions: continue
+                    if isinstance(bad, bool) and int(bad) in versions: continue
+                    cl = sc.make_client(mods, client, devid)
+                    caps = []
+                    async def cb(host, req, context, caps=caps, client=client, call=call):
+                        caps.append(req.encode())
+                        return sc.good_response(client, call, req)
+                    cl.set_request_callback(cb)
+                    if base != "init": cl.set_system_version(base)
+                    before = {k: repr(v) for k, v in vars(cl).items() if k != "request_callback"}
+                    ctx.case(key="notver/%s/%s/%r" % (client, base, bad), nontrivial=True, tag="val:set_system_version:refuse")
+                    try:
+                        cl.set_system_version(bad)
+                        ctx.violation("set-version-accepts:%s:%r" % (client, bad), "%s.set_system_version accepts %r, which is not a supported version" % (client, bad),
+                                      {"client": client, "configured": base, "version": repr(bad)})
+                        continue
+                    except Exception:
+                        pass
+                    after = {k: repr(v) for k, v in vars(cl).items() if k != "request_callback"}
+                    try:
+                        await sc.invoke(cl, client, call, args)
+                    except Exception:
+                        pass
+                    if after != before or caps != [x["data"] for x in ref["caps"]]:
+                        ctx.violation("set-version-partial:%s:%r" % (client, bad), "%s.set_system_version(%r) was refused but left the client changed" % (client, bad),
+                                      {"client": client, "configured": base, "version": repr(bad),
+                                       "changed_attributes": sorted(k for k in set(before) | set(after) if before.get(k) != after.get(k)),
+                                       "next_request": [x.decode("utf-8", "replace") for x in caps], "expected_request": [x["data"].decode("utf-8", "replace") for x in ref["caps"]]})
+    t2 = time.time()
+    anyio.run(not_versions)
+    t3 = time.time()
+
+    # the same values on the compiled model
+    idx = [i for i, c in enumerate(cases) if c["model"] and not results[i].get("setup_failed")]
+    lines = [sc.model_line(cases[i], results[i]) for i in idx]
+    outs = drv.batch(tbl_lines + lines)[len(tbl_lines):]
+    for i, line, model in zip(idx, lines, outs):
+        real = sc.real_line(results[i])
+        if real != model:
+            diffs.append((cases[i], results[i], line, real, model))
+    ctx.traces_validated += len(lines)
+    ctx.extra["validation_seconds"] = {"fresh": round(t1 - t0, 1), "reused": round(t2 - t1, 1), "not_versions": round(t3 - t2, 1), "model": round(time.time() - t3, 1)}
+    ctx.extra["validation_cases"] = len(cases)
+    ctx.extra["validation_model_lines"] = len(lines)
+    ctx.extra["validation_full_ticket_versions"] = sorted(full_ticket)
+    ctx.extra["validation_invitation_versions"] = [str(v) for v in inv_versions]
 
 
 # ---------------------------------------------------------------------------------------------
@@ -460,6 +631,8 @@ def run(ctx):
                               {"case": key_of(c), "exception": repr(r.get("exc"))})
     if language_findings(ctx, mods, data) == 0 and "languages_documented" in failed:
         ctx.corr_break("languages_documented", "five.LANGUAGES is not the documented list but the real validation shows no difference", {"languages": data["languages"]})
+
+    validation_sweep(ctx, mods, data, versions, drv, tbl_lines, diffs)
 
     # ---- 3. set_system_version sweeps
     sweep = list(range(880, 1931)) + [0, 1, 9, 90, 10000, 190100, 1901, 1002]
